@@ -352,14 +352,22 @@ func c11QCondsSuite(r *Result, rng *rand.Rand, tier string) {
 					jt = rel.JoinTable.Table
 				}
 				// --- query-conds
-				conds := rel.ToQueryConditions(context.Background(), val)
+				var conds []clause.Expression
+				if pn := c11Safely(func() { conds = rel.ToQueryConditions(context.Background(), val) }); pn != nil {
+					r.Violate(Violation{Kind: "correspondence", Suite: "query-conds", Input: cs, Observed: fmt.Sprint("panic: ", pn), Expected: "no panic"})
+					continue
+				}
 				ops = append(ops, []interface{}{"qc", rel.FieldSchema.Table, jt, c11RefsJSON(rel), prs})
 				pend = append(pend, pending{suite: "query-conds", cs: cs, real: c11RenderConds(conds)})
 				// --- preload-cols (slice of all records, scope off so that the only conditions are the relation's own)
 				if i%2 == 0 {
 					rec.Reset()
 					dest := reflect.New(reflect.SliceOf(t.typ()))
-					if e := db.Unscoped().Preload(d.Field).Order("n").Find(dest.Interface()).Error; e != nil {
+					var e error
+					if pn := c11Safely(func() { e = db.Unscoped().Preload(d.Field).Order("n").Find(dest.Interface()).Error }); pn != nil {
+						e = fmt.Errorf("panic: %v", pn)
+					}
+					if e != nil {
 						r.Violate(Violation{Kind: "correspondence", Suite: "preload-cols", Input: cs, Observed: e.Error(), Expected: "no error"})
 						continue
 					}
@@ -424,6 +432,12 @@ func c11QCondsSuite(r *Result, rng *rand.Rand, tier string) {
 			}
 		}
 	}
+}
+
+func c11Safely(f func()) (p interface{}) {
+	defer func() { p = recover() }()
+	f()
+	return nil
 }
 
 func c11Bucket(n int) string {
